@@ -62,7 +62,15 @@ fn walk(n: &SyntaxNode<K, u32>) -> usize {
     count
 }
 
-/// two threads materialise the same slots concurrently (creation races, loser clean-up), through their own handles
+fn hash_of<T: std::hash::Hash>(t: &T) -> u64 {
+    use std::hash::Hasher;
+    let mut h = std::collections::hash_map::DefaultHasher::new();
+    t.hash(&mut h);
+    h.finish()
+}
+
+/// two threads materialise the same slots concurrently (creation races, loser clean-up), through their own handles;
+/// the handles they obtained for one position must be equal and hash equally (C05), whatever the schedule
 fn traverse() {
     let root: SyntaxNode<K, u32> = SyntaxNode::new_root(tree());
     let barrier = Arc::new(Barrier::new(2));
@@ -74,15 +82,32 @@ fn traverse() {
                 b.wait();
                 let n = walk(&r);
                 let back = r.last_child_or_token().map(|e| e.text_range());
-                (n, back)
+                let kids: Vec<_> = r.children().cloned().collect();
+                let toks: Vec<_> = r.children_with_tokens().filter_map(|e| e.into_token().cloned()).collect();
+                (n, back, kids, toks)
             })
         })
         .collect();
-    drop(root);
+    let mut got = Vec::new();
     for h in hs {
-        let (n, _) = h.join().unwrap();
+        let (n, _, kids, toks) = h.join().unwrap();
         assert_eq!(n, 8);
+        got.push((kids, toks));
     }
+    let settled: Vec<_> = root.children().cloned().collect();
+    for (kids, _) in &got {
+        assert_eq!(kids.len(), settled.len());
+        for (a, b) in kids.iter().zip(&settled) {
+            assert!(a == b && hash_of(a) == hash_of(b), "two red nodes for one position");
+            assert_eq!(a.text_range(), b.text_range());
+        }
+    }
+    for (a, b) in got[0].1.iter().zip(&got[1].1) {
+        assert!(a == b && hash_of(a) == hash_of(b), "two red tokens for one position");
+    }
+    drop(got);
+    drop(settled);
+    drop(root);
 }
 
 /// clone / drop on several threads; inner handles outlive the root handle; the last drop happens on a thread that
